@@ -24,7 +24,7 @@ RW = [  # (rewriter, op key, arities)
     ("zeroext_simplifier", "ZeroExt", [1]), ("signext_simplifier", "SignExt", [1]),
     ("invert_simplifier", "__invert__", [1]),
 ]
-FUNCTIONS = sorted({f"simplifications.{r[0]}" for r in RW})
+FUNCTIONS = sorted({f"simplifications.{r[0]}" for r in RW}) + ["ast.bool.If", "operations.op._op", "backend_concrete.bv.*"]
 TRUSTED = ["z3 4.13 / z3 5.1 / cvc5 1.0.3 decide the VCs", "CPython 3.12 executes the function bodies",
            "vf/contracts/sem.py is the SMT-LIB meaning of each operation name",
            "structural induction from per-constructor contracts to whole trees (stated, not mechanised)"]
@@ -71,8 +71,16 @@ def _compose_tasks(tier, seed):
     return out
 
 
+def _ctor_tasks(tier):
+    A = "vf.contracts.annos"
+    out = [task(A, "ob_if", f"bool.If[bv]/meaning@w{w}", ["C01"], sort="bv", w=w, tier=tier) for w in ([1, 8] if tier == "quick" else [1, 2, 8, 32])]
+    out.append(task(A, "ob_if", "bool.If[bool]/meaning", ["C01"], sort="bool", tier=tier))
+    out.append(task(A, "ob_op_wrapper", "annos.op._op/meaning+clauses", ["C07", "C01"], tier=tier))
+    return out
+
+
 def tasks(tier, seed=0):
-    return _simp_tasks(tier) + _cbv_tasks(tier) + _compose_tasks(tier, seed)
+    return _simp_tasks(tier) + _cbv_tasks(tier) + _ctor_tasks(tier) + _compose_tasks(tier, seed)
 
 
 def _simp_tasks(tier):
